@@ -30,9 +30,16 @@ Lemma asite_eqb_refl s : asite_eqb s s = true.
 Proof. now apply asite_eqb_eq. Qed.
 Lemma prod_eqb_eq p q : prod_eqb p q = true <-> p = q.
 Proof.
-  destruct p as [| |s|], q as [| |t|]; cbn; split; intros H; try discriminate; auto.
+  destruct p as [| |s| |f c x|f c|f c], q as [| |t| |g d y|g d|g d]; cbn; split; intros H; try discriminate; auto.
   - apply asite_eqb_eq in H. now subst.
   - inversion H; subst. now apply asite_eqb_eq.
+  - apply andb_true_iff in H. destruct H as [H H3]. apply andb_true_iff in H. destruct H as [H1 H2].
+    apply Nat.eqb_eq in H1, H2. apply var_eqb_eq in H3. now subst.
+  - inversion H; subst. now rewrite !Nat.eqb_refl, var_eqb_refl.
+  - apply andb_true_iff in H. destruct H as [H1 H2]. apply Nat.eqb_eq in H1, H2. now subst.
+  - inversion H; subst. now rewrite !Nat.eqb_refl.
+  - apply andb_true_iff in H. destruct H as [H1 H2]. apply Nat.eqb_eq in H1, H2. now subst.
+  - inversion H; subst. now rewrite !Nat.eqb_refl.
 Qed.
 
 Definition env_le (e1 e2 : env) : Prop := forall x p, In p (aget e1 x) -> In p (aget e2 x).
@@ -108,6 +115,33 @@ Proof. intros x p H. apply aget_join. auto. Qed.
 Lemma aget_aput e x a y : aget (aput e x a) y = if var_eqb x y then a else aget e y.
 Proof. reflexivity. Qed.
 
+(* guards *)
+Lemma aget_env_map fn e x : (forall p, In p (dflt x) -> fn p = p) -> aget (env_map fn e) x = map fn (aget e x).
+Proof.
+  intros Hd. induction e as [|[y a] e IH]; cbn.
+  - symmetry. destruct x; cbn in *; rewrite Hd; auto.
+  - destruct (var_eqb y x); auto.
+Qed.
+Lemma kill_dflt xe x p : In p (dflt x) -> kill_guard xe p = p.
+Proof. destruct x; cbn; intros [<-|[]]; reflexivity. Qed.
+Lemma check_dflt xe x p : In p (dflt x) -> check_guard xe p = p.
+Proof. destruct x; cbn; intros [<-|[]]; reflexivity. Qed.
+Lemma aget_aputk e x a y : aget (aputk e x a) y = map (kill_guard x) (if var_eqb x y then a else aget e y).
+Proof. unfold aputk. rewrite aget_aput. destruct (var_eqb x y); auto. apply aget_env_map. apply kill_dflt. Qed.
+
+Lemma norm_in ps p : In p (norm ps) -> In p ps.
+Proof. unfold norm. intros H. apply filter_In in H. tauto. Qed.
+(* a producer dropped by norm is the checked form of a result of a function of which an unchecked result is there *)
+Lemma norm_keep ps p : In p ps ->
+  In p (norm ps) \/ exists f cs q, p = PChecked f cs /\ In q (norm ps) /\ kind_of q = KAlways /\ q <> PStale.
+Proof.
+  intros Hp. unfold norm. destruct p as [| |s| |f c x|f c|f c]; try (left; apply filter_In; split; auto; fail).
+  destruct (existsb (fun q => match q with PGuard g _ _ | PUng g _ => Nat.eqb f g | _ => false end) ps) eqn:E.
+  - right. apply existsb_exists in E. destruct E as [q [Hq Eq]]. exists f, c, q. split; auto.
+    destruct q as [| |s| |g d y|g d|g d]; try discriminate; (split; [apply filter_In; split; auto|split; [reflexivity|discriminate]]).
+  - left. apply filter_In. split; auto. now rewrite E.
+Qed.
+
 Lemma use_ok_in ps p : use_ok ps = true -> In p ps -> p <> PStale.
 Proof.
   unfold use_ok. intros H Hp ->. apply negb_true_iff in H.
@@ -145,22 +179,31 @@ Section Judgement.
   Definition incl_all (tr : list strig) : Prop := forall t, In t tr -> Has t.
 
   Definition args_ok (e : env) (sf : nat -> asite) (args : list atom_e) : Prop :=
-    forall i a, nth_error args i = Some a -> forall p, In p (prods_of_atom e a) ->
+    forall i a, nth_error args i = Some a -> forall p, In p (uprods e a) ->
       Has (mk_trigger 0 p (CSite (sf i))).
+
+  (* env after x, xe = g(..) at call site cs *)
+  Definition call2_env (e : env) (cs : nat) (x xe : option var) (g : fname) : env :=
+    let e' := mark_stale ng e in
+    let res := match xe with Some y => [PGuard g cs y] | None => [PUng g cs] end in
+    let e1 := match x with Some y => env_map (kill_guard y) e' | None => e' end in
+    let e2 := match xe with Some y => env_map (kill_guard y) e1 | None => e1 end in
+    let e3 := match xe with Some y => aput e2 y [PStale] | None => e2 end in
+    match x with Some y => aput e3 y res | None => e3 end.
 
   Inductive J : stmt -> env -> option env -> Prop :=
     | JSkip e : J SSkip e (Some e)
     | JSeqN s1 s2 e : J s1 e None -> J (SSeq s1 s2) e None
     | JSeq s1 s2 e e1 e2 : J s1 e (Some e1) -> J s2 e1 e2 -> J (SSeq s1 s2) e e2
-    | JAssign x a e : incl_all (store_triggers x (prods_of_atom e a)) ->
+    | JAssign x a e : incl_all (store_triggers x (uprods e a)) ->
         use_ok (prods_of_atom e a) || negb (is_glob x) = true ->
-        J (SAssign x a) e (Some (aput e x (prods_of_atom e a)))
+        J (SAssign x a) e (Some (aputk e x (prods_of_atom e a)))
     | JCall cs x g args e : args_ok e (call_param_site ctr g cs) args ->
         forallb (fun a => use_ok (prods_of_atom e a)) args = true ->
         incl_all (match x with Some y => store_triggers y [PSite (call_result_site ctr sp g cs args)] | None => [] end) ->
         J (SCall cs x g args) e
-          (Some (match x with Some y => aput (mark_stale ng e) y [PSite (call_result_site ctr sp g cs args)] | None => mark_stale ng e end))
-    | JDeref d x e : (forall p, In p (aget e x) -> Has (mk_trigger d p CAlways)) -> use_ok (aget e x) = true ->
+          (Some (match x with Some y => aputk (mark_stale ng e) y [PSite (call_result_site ctr sp g cs args)] | None => mark_stale ng e end))
+    | JDeref d x e : (forall p, In p (norm (aget e x)) -> Has (mk_trigger d p CAlways)) -> use_ok (aget e x) = true ->
         J (SDeref d x) e (Some e)
     | JIf c s1 s2 e et ef trc o1 o2 : acond c e = (et, ef, trc, true) -> incl_all trc ->
         J s1 et o1 -> J s2 ef o2 -> J (SIf c s1 s2) e (join_opt o1 o2)
@@ -168,31 +211,40 @@ Section Judgement.
         env_le e einv -> acond c einv = (et, ef, trc, true) -> incl_all trc -> J body et ob ->
         (forall eb, ob = Some eb -> env_le eb einv) ->
         J (SWhile c body) e (Some ef)
-    | JReturn a e : (forall p, In p (prods_of_atom e a) -> Has (mk_trigger 0 p (CSite (SResult f)))) ->
+    | JReturn a e : (forall p, In p (uprods e a) -> Has (mk_trigger 0 p (CSite (SResult f)))) ->
         use_ok (prods_of_atom e a) = true -> J (SReturn a) e None
-    | JConv x k j e : J (SConv x k j) e (Some (aput e x [PNever]))
+    | JConv x k j e : J (SConv x k j) e (Some (aputk e x [PNever]))
     | JCallI cs d x xi k m args e :
-        (forall p, In p (aget e xi) -> Has (mk_trigger d p CAlways)) -> use_ok (aget e xi) = true ->
+        (forall p, In p (norm (aget e xi)) -> Has (mk_trigger d p CAlways)) -> use_ok (aget e xi) = true ->
         args_ok e (SIParam k m) args -> forallb (fun a => use_ok (prods_of_atom e a)) args = true ->
         incl_all (match x with Some y => store_triggers y [PSite (SIResult k m)] | None => [] end) ->
         J (SCallI cs d x xi k m args) e
-          (Some (match x with Some y => aput (mark_stale ng e) y [PSite (SIResult k m)] | None => mark_stale ng e end)).
+          (Some (match x with Some y => aputk (mark_stale ng e) y [PSite (SIResult k m)] | None => mark_stale ng e end))
+    (* return a, er: either the error is known non-nil here, or it is known nil and the value is a use at the result *)
+    | JReturn2 a er e : use_ok (prods_of_atom e a) = true ->
+        (forall q, In q (prods_of_atom e er) -> q = PNever) \/
+        ((forall q, In q (prods_of_atom e er) -> q = PNil) /\
+         (forall p, In p (uprods e a) -> Has (mk_trigger 0 p (CSite (SResult f))))) ->
+        J (SReturn2 a er) e None
+    | JCall2 cs x xe g args e : args_ok e (fun i => SParam g i) args ->
+        forallb (fun a => use_ok (prods_of_atom e a)) args = true ->
+        J (SCall2 cs x xe g args) e (Some (call2_env e cs x xe g)).
 
   Lemma J_skip_inv e o : J SSkip e o -> o = Some e.
   Proof. inversion 1; subst; auto. Qed.
   Lemma J_seq_inv s1 s2 e o : J (SSeq s1 s2) e o -> (J s1 e None /\ o = None) \/ exists e1, J s1 e (Some e1) /\ J s2 e1 o.
   Proof. inversion 1; subst; eauto. Qed.
   Lemma J_assign_inv x a e o : J (SAssign x a) e o ->
-    incl_all (store_triggers x (prods_of_atom e a)) /\ use_ok (prods_of_atom e a) || negb (is_glob x) = true /\
-    o = Some (aput e x (prods_of_atom e a)).
+    incl_all (store_triggers x (uprods e a)) /\ use_ok (prods_of_atom e a) || negb (is_glob x) = true /\
+    o = Some (aputk e x (prods_of_atom e a)).
   Proof. inversion 1; subst; auto. Qed.
   Lemma J_call_inv cs x g args e o : J (SCall cs x g args) e o ->
     args_ok e (call_param_site ctr g cs) args /\ forallb (fun a => use_ok (prods_of_atom e a)) args = true /\
     incl_all (match x with Some y => store_triggers y [PSite (call_result_site ctr sp g cs args)] | None => [] end) /\
-    o = Some (match x with Some y => aput (mark_stale ng e) y [PSite (call_result_site ctr sp g cs args)] | None => mark_stale ng e end).
+    o = Some (match x with Some y => aputk (mark_stale ng e) y [PSite (call_result_site ctr sp g cs args)] | None => mark_stale ng e end).
   Proof. inversion 1; subst; auto. Qed.
   Lemma J_deref_inv d x e o : J (SDeref d x) e o ->
-    (forall p, In p (aget e x) -> Has (mk_trigger d p CAlways)) /\ use_ok (aget e x) = true /\ o = Some e.
+    (forall p, In p (norm (aget e x)) -> Has (mk_trigger d p CAlways)) /\ use_ok (aget e x) = true /\ o = Some e.
   Proof. inversion 1; subst; auto. Qed.
   Lemma J_if_inv c s1 s2 e o : J (SIf c s1 s2) e o ->
     exists et ef trc o1 o2, acond c e = (et, ef, trc, true) /\ incl_all trc /\ J s1 et o1 /\ J s2 ef o2 /\ o = join_opt o1 o2.
@@ -202,22 +254,32 @@ Section Judgement.
       (forall eb, ob = Some eb -> env_le eb einv) /\ o = Some ef.
   Proof. inversion 1; subst. do 5 eexists. eauto 10. Qed.
   Lemma J_return_inv a e o : J (SReturn a) e o ->
-    (forall p, In p (prods_of_atom e a) -> Has (mk_trigger 0 p (CSite (SResult f)))) /\
+    (forall p, In p (uprods e a) -> Has (mk_trigger 0 p (CSite (SResult f)))) /\
     use_ok (prods_of_atom e a) = true /\ o = None.
   Proof. inversion 1; subst; auto. Qed.
 
-  Lemma J_conv_inv x k j e o : J (SConv x k j) e o -> o = Some (aput e x [PNever]).
+  Lemma J_conv_inv x k j e o : J (SConv x k j) e o -> o = Some (aputk e x [PNever]).
   Proof. inversion 1; subst; auto. Qed.
   Lemma J_calli_inv cs d x xi k m args e o : J (SCallI cs d x xi k m args) e o ->
-    (forall p, In p (aget e xi) -> Has (mk_trigger d p CAlways)) /\ use_ok (aget e xi) = true /\
+    (forall p, In p (norm (aget e xi)) -> Has (mk_trigger d p CAlways)) /\ use_ok (aget e xi) = true /\
     args_ok e (SIParam k m) args /\ forallb (fun a => use_ok (prods_of_atom e a)) args = true /\
     incl_all (match x with Some y => store_triggers y [PSite (SIResult k m)] | None => [] end) /\
-    o = Some (match x with Some y => aput (mark_stale ng e) y [PSite (SIResult k m)] | None => mark_stale ng e end).
+    o = Some (match x with Some y => aputk (mark_stale ng e) y [PSite (SIResult k m)] | None => mark_stale ng e end).
   Proof. inversion 1; subst; repeat split; auto. Qed.
+  Lemma J_return2_inv a er e o : J (SReturn2 a er) e o ->
+    use_ok (prods_of_atom e a) = true /\
+    ((forall q, In q (prods_of_atom e er) -> q = PNever) \/
+     ((forall q, In q (prods_of_atom e er) -> q = PNil) /\
+      (forall p, In p (uprods e a) -> Has (mk_trigger 0 p (CSite (SResult f)))))) /\ o = None.
+  Proof. inversion 1; subst; auto. Qed.
+  Lemma J_call2_inv cs x xe g args e o : J (SCall2 cs x xe g args) e o ->
+    args_ok e (fun i => SParam g i) args /\ forallb (fun a => use_ok (prods_of_atom e a)) args = true /\
+    o = Some (call2_env e cs x xe g).
+  Proof. inversion 1; subst; auto. Qed.
 
   Lemma arg_triggers_ok e sf : forall args i0,
     (forall t, In t (arg_triggers e sf i0 args) -> Has t) ->
-    forall i a, nth_error args i = Some a -> forall p, In p (prods_of_atom e a) ->
+    forall i a, nth_error args i = Some a -> forall p, In p (uprods e a) ->
       Has (mk_trigger 0 p (CSite (sf (i0 + i)))).
   Proof.
     induction args as [|a0 args IH]; intros i0 H i a Hn p Hp; [destruct i; discriminate|].
@@ -253,7 +315,7 @@ Section Judgement.
   Lemma analyze_J fuel : forall st e r,
     analyze ng ctr sp f fuel st e = Some r -> a_gsafe r = true -> incl_all (a_trig r) -> J st e (a_env r).
   Proof.
-    induction st as [| s1 IH1 s2 IH2 | x a | cs x g args | d x | c s1 IH1 s2 IH2 | c body IH | a | x k j | cs d x xi k m args]; intros e r H Hg Hall; cbn in H.
+    induction st as [| s1 IH1 s2 IH2 | x a | cs x g args | d x | c s1 IH1 s2 IH2 | c body IH | a | x k j | cs d x xi k m args | a er | cs x xe g args]; intros e r H Hg Hall; cbn in H.
     - inversion H; subst. constructor.
     - destruct (analyze ng ctr sp f fuel s1 e) as [r1|] eqn:E1; try discriminate.
       destruct (a_env r1) as [e1|] eqn:Ee1.
@@ -285,6 +347,14 @@ Section Judgement.
       constructor; auto.
       + intros p Hp. apply Ha0. apply in_map_iff. exists p. auto.
       + intros i a Hn p Hp. apply (arg_triggers_ok e (SIParam k m) args 0 Ha1 i a Hn p Hp).
+    - inversion H; subst. cbn in *. apply andb_true_iff in Hg. destruct Hg as [Hu Hcl]. constructor; auto.
+      destruct (forallb (fun p => match p with PNever => true | _ => false end) (prods_of_atom e er)) eqn:En.
+      + left. intros q Hq. rewrite forallb_forall in En. specialize (En q Hq). destruct q; try discriminate. reflexivity.
+      + right. cbn in Hcl. rewrite forallb_forall in Hcl. split.
+        * intros q Hq. specialize (Hcl q Hq). destruct q; try discriminate. reflexivity.
+        * intros p Hp. apply Hall. apply in_map_iff. exists p. auto.
+    - inversion H; subst. cbn in *. constructor; auto.
+      intros i a Hn p Hp. apply (arg_triggers_ok e (fun i => SParam g i) args 0 Hall i a Hn p Hp).
   Qed.
 End Judgement.
 
@@ -472,9 +542,21 @@ Section Sound.
   Hypothesis CallsOK : forall g fd, nth_error (p_funcs prog) g = Some fd -> calls_ok g (f_body fd).
 
   Definition nu (s : asite) : Prop := nilr C (enc s).
-  Definition nilable (p : prod) : Prop := match p with PNil | PStale => True | PNever => False | PSite s => nu s end.
+  (* what a producer says of the value in store st: may it be nil? (an unchecked result of an error-returning
+     function: if its error -- a local -- is nil now, then the function's result site is nil-able) *)
+  Definition nilS (st : store) (p : prod) : Prop :=
+    match p with
+    | PNil | PStale | PUng _ _ => True
+    | PNever => False
+    | PSite s => nu s
+    | PGuard f _ xe => if is_glob xe then True else (sget st xe = VNil -> nu (SResult f))
+    | PChecked f _ => nu (SResult f)
+    end.
+  (* what the trigger of a producer needs *)
+  Definition nilK (p : prod) : Prop :=
+    match kind_of p with KAlways => True | KNever => False | KCond k => nilr C k end.
   Definition respects (g : fname) (c : option nat) (s : store) (e : env) : Prop :=
-    forall x, var_ok prog x = true -> sget s x = VNil -> exists p, In p (aget e x) /\ nilable (psub g c p).
+    forall x, var_ok prog x = true -> sget s x = VNil -> exists p, In p (aget e x) /\ nilS s (psub g c p).
   (* a package-level variable that holds nil has a nil-able site *)
   Definition GInv (s : store) : Prop := forall k, k < ng -> sget s (VG k) = VNil -> nu (SGlobal k).
   (* an interface value stems from a conversion of the program *)
@@ -491,6 +573,28 @@ Section Sound.
   Proof.
     destruct c as [cs|]; cbn; [|tauto]. destruct (prod_eqb p (PSite (SParam g 0))) eqn:E; [|tauto].
     apply prod_eqb_eq in E. subst. split; discriminate.
+  Qed.
+
+  Lemma nilS_nilK st p : nilS st p -> p <> PStale -> nilK p.
+  Proof. destruct p; cbn; auto; try contradiction. Qed.
+
+  (* the substitution of a call-site context only touches the parameter site *)
+  Lemma psub_other g c p : (forall s, p <> PSite s) -> psub g c p = p.
+  Proof.
+    intros H. destruct c as [cs|]; cbn; auto. destruct (prod_eqb p (PSite (SParam g 0))) eqn:E; auto.
+    apply prod_eqb_eq in E. exfalso. eapply H; eauto.
+  Qed.
+  Lemma psub_kill g c x p : psub g c (kill_guard x p) = kill_guard x (psub g c p).
+  Proof.
+    destruct p as [| |s| |f cs y|f cs|f cs]; try (rewrite !psub_other by (intros s0; discriminate); reflexivity).
+    - destruct c as [cs|]; cbn; auto. destruct (asite_eqb s (SParam g 0)); reflexivity.
+    - cbn. destruct (var_eqb y x) eqn:E; rewrite !psub_other by (intros s0; discriminate); cbn; rewrite ?E; auto.
+  Qed.
+  Lemma psub_check g c x p : psub g c (check_guard x p) = check_guard x (psub g c p).
+  Proof.
+    destruct p as [| |s| |f cs y|f cs|f cs]; try (rewrite !psub_other by (intros s0; discriminate); reflexivity).
+    - destruct c as [cs|]; cbn; auto. destruct (asite_eqb s (SParam g 0)); reflexivity.
+    - cbn. destruct (var_eqb y x && negb (is_glob y)) eqn:E; rewrite !psub_other by (intros s0; discriminate); cbn; rewrite ?E; auto.
   Qed.
 
   (* the form of an instantiated trigger *)
@@ -520,49 +624,79 @@ Section Sound.
     unfold etrig at 1. cbn. rewrite Hc. apply in_map_iff. exists a. auto.
   Qed.
 
-  (* a use at a site: a nil-able producer makes the (instantiated) site nil-able, provided the controller of a
+  (* a use at a site: a producer that may fire makes the (instantiated) site nil-able, provided the controller of a
      duplicated return trigger is *)
-  Lemma tsite g c id p s : Has g c (mk_trigger id p (CSite s)) -> nilable (psub g c p) -> p <> PStale ->
+  Lemma tsite g c id p s : Has g c (mk_trigger id p (CSite s)) -> nilK (psub g c p) ->
     (forall cs, c = Some cs -> asite_eqb s (SResult g) = true -> nu (SCallParam g cs)) ->
     nu (rsub g c s).
   Proof.
-    unfold Has. rewrite inst_mk. intros Ht Hn Hs Hctl.
+    unfold Has. rewrite inst_mk. intros Ht Hn Hctl.
     set (t := {| s_id := id; s_prod := psub g c p; s_cons := CSite (rsub g c s);
                  s_ctrl := match c with Some cs => if asite_eqb s (SResult g) then Some (SCallParam g cs) else None | None => None end |}) in *.
-    assert (Hs' : psub g c p <> PStale) by (intros E; apply psub_stale in E; contradiction).
+    unfold nilK in Hn.
+    assert (Hat : atoms_of_trigger (etrig t) = atom_of_kinds id (kind_of (psub g c p)) (KCond (enc (rsub g c s)))) by reflexivity.
     destruct (s_ctrl t) as [k|] eqn:Ek.
     - assert (Hk : nu k).
       { subst t. cbn in Ek. destruct c as [cs|]; [|discriminate]. destruct (asite_eqb s (SResult g)) eqn:E; [|discriminate].
         inversion Ek; subst. eapply Hctl; eauto. }
-      destruct (psub g c p) as [| |q|] eqn:Ep; cbn in Hn; try contradiction; try congruence.
-      + eapply nr_csrc; [|exact Hk]. eapply (in_ctld t k); eauto. unfold atoms_of_trigger, etrig. subst t. cbn. rewrite ?Ep. left; reflexivity.
-      + eapply nr_cedge with (p := enc q) (t := id); [|exact Hk|exact Hn].
-        eapply (in_ctld t k); eauto. unfold atoms_of_trigger, etrig. subst t. cbn. rewrite ?Ep. left; reflexivity.
-    - destruct (psub g c p) as [| |q|] eqn:Ep; cbn in Hn; try contradiction; try congruence.
-      + apply nr_src. eapply (in_base t); eauto. unfold atoms_of_trigger, etrig. subst t. cbn. rewrite ?Ep. left; reflexivity.
-      + apply nr_edge with (enc q) id; auto. eapply (in_base t); eauto. unfold atoms_of_trigger, etrig. subst t. cbn. rewrite ?Ep. left; reflexivity.
+      destruct (kind_of (psub g c p)) as [| |q] eqn:Ep; try contradiction.
+      + eapply nr_csrc; [|exact Hk]. eapply (in_ctld t k); eauto. rewrite Hat. left; reflexivity.
+      + eapply nr_cedge with (p := q) (t := id); [|exact Hk|exact Hn].
+        eapply (in_ctld t k); eauto. rewrite Hat. left; reflexivity.
+    - destruct (kind_of (psub g c p)) as [| |q] eqn:Ep; try contradiction.
+      + apply nr_src. eapply (in_base t); eauto. rewrite Hat. left; reflexivity.
+      + apply nr_edge with q id; auto. eapply (in_base t); eauto. rewrite Hat. left; reflexivity.
   Qed.
 
-  Lemma tderef g c id p : Has g c (mk_trigger id p CAlways) -> nilable (psub g c p) -> p <> PStale -> False.
+  Lemma tderef g c id p : Has g c (mk_trigger id p CAlways) -> nilK (psub g c p) -> False.
   Proof.
-    unfold Has. rewrite inst_mk. intros Ht Hn Hs. apply NoFlow.
-    assert (Hs' : psub g c p <> PStale) by (intros E; apply psub_stale in E; contradiction).
+    unfold Has. rewrite inst_mk. intros Ht Hn. apply NoFlow.
     set (t := {| s_id := id; s_prod := psub g c p; s_cons := CAlways;
                  s_ctrl := match c with Some _ => None | None => None end |}) in *.
     assert (Ek : s_ctrl t = None) by (subst t; cbn; destruct c; reflexivity).
-    destruct (psub g c p) as [| |q|] eqn:Ep; cbn in Hn; try contradiction; try congruence.
-    - left. exists id. left. eapply (in_base t); eauto. unfold atoms_of_trigger, etrig. subst t. cbn. rewrite ?Ep. left; reflexivity.
-    - right. exists (enc q). split; auto. apply nn_snk. left. eapply (in_base t); eauto.
-      unfold atoms_of_trigger, etrig. subst t. cbn. rewrite ?Ep. left; reflexivity.
+    assert (Hat : atoms_of_trigger (etrig t) = atom_of_kinds id (kind_of (psub g c p)) KAlways) by reflexivity.
+    unfold nilK in Hn. destruct (kind_of (psub g c p)) as [| |q] eqn:Ep; try contradiction.
+    - left. exists id. left. eapply (in_base t); eauto. rewrite Hat. left; reflexivity.
+    - right. exists q. split; auto. apply nn_snk. left. eapply (in_base t); eauto. rewrite Hat. left; reflexivity.
   Qed.
 
   (* sites other than the function's own result are never controlled *)
-  Lemma tsite_plain g c id p s : Has g c (mk_trigger id p (CSite s)) -> nilable (psub g c p) -> p <> PStale ->
+  Lemma tsite_plain g c id p s : Has g c (mk_trigger id p (CSite s)) -> nilK (psub g c p) ->
     asite_eqb s (SResult g) = false -> nu s.
   Proof.
-    intros Ht Hn Hs Hne.
+    intros Ht Hn Hne.
     assert (E : rsub g c s = s) by (unfold rsub; destruct c; auto; now rewrite Hne).
     unfold nu. rewrite <- E. eapply tsite; eauto. intros cs _ E2. congruence.
+  Qed.
+
+  (* a use of a value: the producers that are turned into triggers are norm ps; a witness among ps is enough *)
+  Lemma psub_kind g c p : kind_of p = KAlways -> kind_of (psub g c p) = KAlways.
+  Proof.
+    intros H. destruct p; cbn in H; try discriminate; rewrite psub_other by (intros s0; discriminate); reflexivity.
+  Qed.
+  Lemma use_site g c st ps id s p :
+    (forall q, In q (norm ps) -> Has g c (mk_trigger id q (CSite s))) -> In p ps -> nilS st (psub g c p) -> p <> PStale ->
+    (forall cs, c = Some cs -> asite_eqb s (SResult g) = true -> nu (SCallParam g cs)) ->
+    nu (rsub g c s).
+  Proof.
+    intros Hall Hp Hn Hs Hctl. destruct (norm_keep ps p Hp) as [Hin|[f [cs [q [-> [Hq [Hk Hqs]]]]]]].
+    - eapply tsite; eauto. eapply nilS_nilK; eauto. intros E. apply psub_stale in E. contradiction.
+    - eapply (tsite g c id q); eauto. unfold nilK. now rewrite (psub_kind g c q Hk).
+  Qed.
+  Lemma use_site_plain g c st ps id s p :
+    (forall q, In q (norm ps) -> Has g c (mk_trigger id q (CSite s))) -> In p ps -> nilS st (psub g c p) -> p <> PStale ->
+    asite_eqb s (SResult g) = false -> nu s.
+  Proof.
+    intros Hall Hp Hn Hs Hne.
+    assert (E : rsub g c s = s) by (unfold rsub; destruct c; auto; now rewrite Hne).
+    unfold nu. rewrite <- E. eapply use_site; eauto. intros cs _ E2. congruence.
+  Qed.
+  Lemma use_deref g c st ps id p :
+    (forall q, In q (norm ps) -> Has g c (mk_trigger id q CAlways)) -> In p ps -> nilS st (psub g c p) -> p <> PStale -> False.
+  Proof.
+    intros Hall Hp Hn Hs. destruct (norm_keep ps p Hp) as [Hin|[f [cs [q [-> [Hq [Hk Hqs]]]]]]].
+    - eapply tderef; eauto. eapply nilS_nilK; eauto. intros E. apply psub_stale in E. contradiction.
+    - eapply (tderef g c id q); eauto. unfold nilK. now rewrite (psub_kind g c q Hk).
   Qed.
 
   (* an uncontrolled site-to-site trigger of the program is an edge *)
@@ -586,30 +720,53 @@ Section Sound.
   Lemma Vok_atom s a : DInv s -> Vok (eval_atom s a).
   Proof. intros H. destruct a; cbn; [apply Vok_nil | apply Vok_plain | apply H]. Qed.
 
+  (* overwriting x: what the producers said stays true once the guards that depended on x are dropped *)
+  Lemma nilS_kill g c s x v p : nilS s (psub g c p) -> nilS (sset s x v) (psub g c (kill_guard x p)).
+  Proof.
+    rewrite psub_kill. destruct (psub g c p) as [| |q| |f cs y|f cs|f cs]; cbn; auto.
+    destruct (var_eqb y x) eqn:E; cbn; auto. destruct (is_glob y); auto.
+    assert (E' : var_eqb x y = false).
+    { apply var_eqb_neq. intros ->. rewrite var_eqb_refl in E. discriminate. }
+    intros H Hy. apply H. rewrite E' in Hy. exact Hy.
+  Qed.
+
+  Lemma respects_kill g c s e x v : respects g c s e ->
+    forall y, var_eqb x y = false -> var_ok prog y = true -> sget (sset s x v) y = VNil ->
+    exists p, In p (map (kill_guard x) (aget e y)) /\ nilS (sset s x v) (psub g c p).
+  Proof.
+    intros H y Hxy Hok Hy. rewrite sget_sset, Hxy in Hy. destruct (H y Hok Hy) as [p [Hp Hn]].
+    exists (kill_guard x p). split; [now apply in_map|]. now apply nilS_kill.
+  Qed.
+
   Lemma inv_assign g c s e x v a :
-    respects g c s e -> GInv s -> (v = VNil -> exists p, In p a /\ nilable (psub g c p)) ->
-    incl_all (Has g c) (store_triggers x a) -> use_ok a || negb (is_glob x) = true ->
-    respects g c (sset s x v) (aput e x a) /\ GInv (sset s x v).
+    respects g c s e -> GInv s -> (v = VNil -> exists p, In p a /\ nilS s (psub g c p)) ->
+    incl_all (Has g c) (store_triggers x (norm a)) -> use_ok a || negb (is_glob x) = true ->
+    respects g c (sset s x v) (aputk e x a) /\ GInv (sset s x v).
   Proof.
     intros H HG Hv Hst Hu. split.
-    - intros y Hok Hy. rewrite sget_sset in Hy. rewrite aget_aput. destruct (var_eqb x y); auto.
+    - intros y Hok Hy. rewrite aget_aputk. destruct (var_eqb x y) eqn:E.
+      + rewrite sget_sset, E in Hy. destruct (Hv Hy) as [p [Hp Hn]].
+        exists (kill_guard x p). split; [now apply in_map|]. now apply nilS_kill.
+      + eapply respects_kill; eauto.
     - intros k Hk Hy. rewrite sget_sset in Hy. destruct (var_eqb x (VG k)) eqn:E; auto.
       apply var_eqb_eq in E. subst x. destruct (Hv Hy) as [p [Hp Hn]].
       cbn in Hu. rewrite orb_false_r in Hu.
-      eapply (tsite_plain g c 0 p (SGlobal k)); [|exact Hn|eapply use_ok_in; eauto|reflexivity].
-      apply Hst. cbn. apply in_map_iff. exists p. split; eauto.
+      eapply (use_site_plain g c s a 0 (SGlobal k) p); eauto; [|eapply use_ok_in; eauto].
+      intros q Hq. apply Hst. cbn. apply in_map_iff. exists q. split; eauto.
   Qed.
 
   Lemma inv_assign_nonnil g c s e x v a :
-    respects g c s e -> GInv s -> v <> VNil -> respects g c (sset s x v) (aput e x a) /\ GInv (sset s x v).
+    respects g c s e -> GInv s -> v <> VNil -> respects g c (sset s x v) (aputk e x a) /\ GInv (sset s x v).
   Proof.
     intros H HG Hv. split.
-    - intros y Hok Hy. rewrite sget_sset in Hy. rewrite aget_aput. destruct (var_eqb x y); auto. contradiction.
+    - intros y Hok Hy. rewrite aget_aputk. destruct (var_eqb x y) eqn:E.
+      + rewrite sget_sset, E in Hy. contradiction.
+      + eapply respects_kill; eauto.
     - intros k Hk Hy. rewrite sget_sset in Hy. destruct (var_eqb x (VG k)); auto. contradiction.
   Qed.
 
   Lemma eval_atom_respects g c s e a : atom_ok prog a = true -> respects g c s e -> eval_atom s a = VNil ->
-    exists p, In p (prods_of_atom e a) /\ nilable (psub g c p).
+    exists p, In p (prods_of_atom e a) /\ nilS s (psub g c p).
   Proof.
     intros Hok H Hv. destruct a as [| |x]; cbn in *.
     - exists PNil. split; [left; reflexivity|]. destruct c; cbn; auto.
@@ -623,6 +780,16 @@ Section Sound.
     apply var_eqb_eq in E; subst. congruence.
   Qed.
 
+  (* on the branch where x (an error) is nil, the results it guards are checked *)
+  Lemma respects_checked g c s e x : respects g c s e -> sget s x = VNil -> respects g c s (env_map (check_guard x) e).
+  Proof.
+    intros H Hx y Hok Hy. destruct (H y Hok Hy) as [p [Hp Hn]].
+    rewrite aget_env_map by (apply check_dflt). exists (check_guard x p). split; [now apply in_map|].
+    rewrite psub_check. destruct (psub g c p) as [| |q| |f cs z|f cs|f cs]; cbn in *; auto.
+    destruct (var_eqb z x) eqn:E; cbn; auto. destruct (is_glob z) eqn:Gz; cbn; auto; [now rewrite Gz|].
+    apply var_eqb_eq in E. subst. auto.
+  Qed.
+
   Lemma acond_sound g c0 c : forall e et ef tr s oracle,
     acond c e = (et, ef, tr, true) -> incl_all (Has g c0) tr -> cond_ok prog c = true -> respects g c0 s e ->
     match eval_cond s c oracle with
@@ -632,10 +799,12 @@ Section Sound.
   Proof.
     induction c as [|x|d x|c IH|c1 IH1 c2 IH2|c1 IH1 c2 IH2]; intros e et ef tr s oracle Ha Hall Hok Hr; cbn in Ha, Hok |- *.
     - inversion Ha; subst. destruct (ask oracle) as [b o]. now destruct b.
-    - inversion Ha; subst. destruct (sget s x) eqn:E; auto. apply respects_nonnil; auto. congruence.
+    - inversion Ha; subst. destruct (sget s x) eqn:E.
+      + now apply respects_checked.
+      + apply respects_nonnil; auto. congruence.
     - inversion Ha as [[E1 E2 E3 Hu]]; subst. destruct (sget s x) eqn:E.
-      + destruct (Hr x Hok E) as [p [Hp Hn]]. eapply tderef; [|exact Hn|eapply use_ok_in; eauto].
-        apply Hall. apply in_map_iff. exists p. eauto.
+      + destruct (Hr x Hok E) as [p [Hp Hn]]. eapply (use_deref g c0 s _ d p); [|exact Hp|exact Hn|eapply use_ok_in; eauto].
+        intros q Hq. apply Hall. apply in_map_iff. exists q. eauto.
       + destruct (ask oracle) as [b o]. now destruct b.
     - destruct (acond c e) as [[[et1 ef1] tr1] b1] eqn:E1. inversion Ha; subst.
       specialize (IH e ef et tr s oracle E1 Hall Hok Hr). destruct (eval_cond s c oracle) as [b o|d]; auto.
@@ -672,7 +841,7 @@ Section Sound.
   Proof.
     intros Hr Hargs Hoks Hus Hsf Ea Hv.
     destruct (eval_atom_respects g c s e a (forallb_nth _ _ _ _ Hoks Ea) Hr Hv) as [p [Hp Hn]].
-    eapply (tsite_plain g c 0 p); [exact (Hargs i a Ea p Hp) | exact Hn | | apply Hsf].
+    eapply (use_site_plain g c s (prods_of_atom e a) 0 (sf i) p); eauto.
     eapply use_ok_in; [|exact Hp]. apply (forallb_nth (fun a => use_ok (prods_of_atom e a)) _ _ _ Hus Ea).
   Qed.
 
@@ -680,7 +849,7 @@ Section Sound.
      package-level variables as the caller has them *)
   Lemma callee_entry h c' s vs n :
     GInv s -> DInv s -> (forall v, In v vs -> Vok v) -> length vs = n ->
-    (forall i, nth_error vs i = Some VNil -> nilable (psub h c' (PSite (SParam h i)))) ->
+    (forall i st, nth_error vs i = Some VNil -> nilS st (psub h c' (PSite (SParam h i)))) ->
     respects h c' (bind_params 0 vs ++ globals_of s) (entry_env h 0 n) /\
     GInv (bind_params 0 vs ++ globals_of s) /\ DInv (bind_params 0 vs ++ globals_of s).
   Proof.
@@ -700,6 +869,13 @@ Section Sound.
       destruct (nth_error vs i) as [v|] eqn:En; [|apply Vok_nil]. apply Hvs. eapply nth_error_In; eauto.
   Qed.
 
+  (* the value of a local is the same before and after a call *)
+  Lemma nilS_after g c s s' p : nilS s (psub g c p) -> nilS (globals_of s' ++ locals_of s) (psub g c p).
+  Proof.
+    destruct (psub g c p) as [| |q| |f cs y|f cs|f cs]; cbn; auto.
+    rewrite sget_after. destruct (is_glob y); auto.
+  Qed.
+
   (* back in the caller: locals as before the call, package-level variables as the callee left them; those
      whose tracked value is no longer (also) their site are marked stale *)
   Lemma after_call g c s s' e :
@@ -709,7 +885,7 @@ Section Sound.
   Proof.
     intros Hr HG HD HD'. split; [|split].
     - intros x Hok Hx. rewrite sget_after in Hx. rewrite aget_mark_stale. destruct x as [i|k]; cbn in Hx.
-      + apply Hr; auto.
+      + destruct (Hr (VL i) Hok Hx) as [p [Hp Hn]]. exists p. split; auto. now apply nilS_after.
       + assert (Hk : Nat.ltb k ng = true) by exact Hok. rewrite Hk. cbn [andb]. apply Nat.ltb_lt in Hk. destruct (fresh e k) eqn:F; cbn [negb].
         * exists (PSite (SGlobal k)). split.
           -- unfold fresh in F. apply existsb_exists in F. destruct F as [q [Hq E]]. apply prod_eqb_eq in E. now subst.
@@ -761,18 +937,70 @@ Section Sound.
     apply in_map_iff. exists i. split; auto. apply in_seq_from. lia.
   Qed.
 
+  Lemma GInv_local s i v : GInv s -> GInv (sset s (VL i) v).
+  Proof. intros H k Hk Hx. rewrite sget_sset in Hx. cbn in Hx. auto. Qed.
+
+  (* x, xe = h(..) returned (v, ev) with: ev nil and v nil => the result site of h is nil-able *)
+  Lemma call2_respects g c s1 e cs x xe h v ev :
+    respects g c s1 (mark_stale ng e) -> GInv s1 ->
+    (ev = VNil -> v = VNil -> nu (SResult h)) ->
+    match x with Some (VG _) => False | _ => True end ->
+    match xe with Some (VL _ as y) => match x with Some y' => var_eqb y y' = false | None => True end | Some (VG _) => False | None => True end ->
+    let s2 := match x with Some y => sset s1 y v | None => s1 end in
+    let s3 := match xe with Some y => sset s2 y ev | None => s2 end in
+    respects g c s3 (call2_env ng e cs x xe h) /\ GInv s3.
+  Proof.
+    intros Hr HG Hret Hx Hxe s2 s3. split.
+    - intros z Hok Hz. unfold call2_env.
+      set (e' := mark_stale ng e) in *.
+      set (e1 := match x with Some y => env_map (kill_guard y) e' | None => e' end).
+      set (e2 := match xe with Some y => env_map (kill_guard y) e1 | None => e1 end).
+      (* everything but x and xe: as in e', with the guards on x and xe dropped *)
+      assert (Hother : (match x with Some y => var_eqb y z = false | None => True end) ->
+                       (match xe with Some y => var_eqb y z = false | None => True end) ->
+                       exists p, In p (aget e2 z) /\ nilS s3 (psub g c p)).
+      { intros Nx Nxe.
+        assert (Hz1 : sget s1 z = VNil).
+        { subst s3 s2. destruct xe as [ye|]; [rewrite sget_sset, Nxe in Hz|]; destruct x as [y|]; try (rewrite sget_sset, Nx in Hz); auto. }
+        destruct (Hr z Hok Hz1) as [p [Hp Hn]].
+        assert (H1 : exists p1, In p1 (aget e1 z) /\ nilS s2 (psub g c p1)).
+        { subst e1 s2. destruct x as [y|]; [|exists p; auto].
+          exists (kill_guard y p). split; [rewrite aget_env_map by (apply kill_dflt); now apply in_map | now apply nilS_kill]. }
+        destruct H1 as [p1 [Hp1 Hn1]]. subst e2 s3. destruct xe as [ye|]; [|exists p1; auto].
+        exists (kill_guard ye p1). split; [rewrite aget_env_map by (apply kill_dflt); now apply in_map | now apply nilS_kill]. }
+      destruct x as [y|]; destruct xe as [ye|]; cbn [aget aput] in *.
+      + destruct (var_eqb y z) eqn:Ey.
+        * apply var_eqb_eq in Ey. subst z. exists (PGuard h cs ye). split; [left; reflexivity|].
+          rewrite psub_other by (intros s0; discriminate). cbn.
+          destruct ye as [i|k]; [|contradiction]. cbn [is_glob]. rewrite var_eqb_refl.
+          intros Hev. apply Hret; auto.
+          subst s3 s2. rewrite sget_sset, Hxe in Hz. rewrite sget_sset, var_eqb_refl in Hz. exact Hz.
+        * destruct (var_eqb ye z) eqn:Eye.
+          -- exists PStale. split; [left; reflexivity|]. destruct c; exact I.
+          -- apply Hother; auto.
+      + destruct (var_eqb y z) eqn:Ey.
+        * exists (PUng h cs). split; [left; reflexivity|]. rewrite psub_other by (intros s0; discriminate). exact I.
+        * apply Hother; auto.
+      + destruct (var_eqb ye z) eqn:Eye.
+        * exists PStale. split; [left; reflexivity|]. destruct c; exact I.
+        * apply Hother; auto.
+      + apply Hother; auto.
+    - subst s3 s2. destruct xe as [[i|k]|]; try contradiction; destruct x as [[j|k']|]; try contradiction;
+        repeat apply GInv_local; auto.
+  Qed.
+
   Theorem J_sound : forall fuel g c st s oracle e o,
     J (Has g c) ng ctr (sp2 g) g st e o -> stmt_ok prog st = true -> calls_ok g st ->
     respects g c s e -> GInv s -> DInv s ->
     match exec prog fuel st s oracle with
     | ONormal s' _ => (exists e', o = Some e' /\ respects g c s' e') /\ GInv s' /\ DInv s'
-    | OReturn v s' _ => (v = VNil -> ret_ok g c) /\ GInv s' /\ DInv s' /\ Vok v
+    | OReturn v s' _ => (v = VNil -> sget s' VERR = VNil -> ret_ok g c) /\ GInv s' /\ DInv s' /\ Vok v
     | OPanic _ => False
     | OOutOfFuel => True
     end.
   Proof.
     induction fuel as [|fuel IH]; intros g c st s oracle e o HJ Hok Hcalls Hr HG HD; cbn [exec]; auto.
-    destruct st as [| s1 s2 | x a | cs x h args | d x | cd s1 s2 | cd body | a | x ik j | cs d x xi ik m args]; cbn in Hok.
+    destruct st as [| s1 s2 | x a | cs x h args | d x | cd s1 s2 | cd body | a | x ik j | cs d x xi ik m args | a er | cs x xe h args]; cbn in Hok.
     - apply J_skip_inv in HJ. subst. eauto.
     - apply andb_true_iff in Hok. destruct Hok as [Hc1 Hc2]. apply calls_ok_seq in Hcalls. destruct Hcalls as [Hk1 Hk2].
       apply J_seq_inv in HJ. destruct HJ as [[H1 ->]|[e1 [H1 H2]]].
@@ -805,7 +1033,7 @@ Section Sound.
           unfold call_param_site in A. rewrite Ech in A. apply A; auto. }
         destruct (callee_entry h (Some cs) s (map (eval_atom s) [a0]) (f_nparams fd) HG HD Hvs) as [Hentry [HGentry HDentry]].
         { cbn. now rewrite Hnp. }
-        { intros i Hi. destruct i as [|i]; cbn in Hi; [|destruct i; discriminate]. inversion Hi as [Hv].
+        { intros i st0 Hi. destruct i as [|i]; cbn in Hi; [|destruct i; discriminate]. inversion Hi as [Hv].
           cbn. rewrite !Nat.eqb_refl. cbn. auto. }
         pose proof (IH h (Some cs) (f_body fd) _ oracle _ og HJh (WF h fd Eh) (CallsOK h fd Eh) Hentry HGentry HDentry) as R.
         cbn [map] in R |- *.
@@ -821,15 +1049,16 @@ Section Sound.
             assert (E : psub g c (PSite (SCallResult h cs)) = PSite (SCallResult h cs)) by (destruct c; reflexivity).
             rewrite E. cbn.
             replace (SCallResult h cs) with (rsub h (Some cs) (SResult h)) by (cbn; now rewrite Nat.eqb_refl).
-            eapply (tsite h (Some cs) 0 PNil (SResult h)); [apply Hend; congruence | exact I | discriminate |].
+            eapply (tsite h (Some cs) 0 PNil (SResult h)); [apply Hend; congruence | exact I |].
             intros cs0 E0 _. inversion E0; subst. auto. }
           split; [eauto|]. split; auto. apply DInv_sset; auto. apply Vok_nil.
-        * destruct R as [Hv [HG' [HD' Hvv]]]. destruct (after_call g c s s' e Hr HG' HD HD') as [A1 [A2 A3]].
+        * destruct (sget s' VERR) eqn:Everr; auto.
+          destruct R as [Hv [HG' [HD' Hvv]]]. destruct (after_call g c s s' e Hr HG' HD HD') as [A1 [A2 A3]].
           destruct x as [y|]; [|split; eauto].
           destruct (inv_assign g c _ (mark_stale ng e) y v [PSite (SCallResult h cs)] A1 A2) as [R1 R2]; auto.
           { intros Hnil. exists (PSite (SCallResult h cs)). split; [left; reflexivity|].
             assert (E : psub g c (PSite (SCallResult h cs)) = PSite (SCallResult h cs)) by (destruct c; reflexivity).
-            rewrite E. cbn. apply (Hv Hnil). apply Hcp.
+            rewrite E. cbn. apply (Hv Hnil eq_refl). apply Hcp.
             destruct (eval_atom s a0) as [|dd] eqn:Ev; auto.
             pose proof (Hct fuel (globals_of s) oracle dd Hgl) as Hcontract. rewrite Ex in Hcontract. congruence. }
           split; [eauto|]. split; auto. apply DInv_sset; auto.
@@ -840,7 +1069,7 @@ Section Sound.
         destruct (FuncsOK h fd None Eh I) as [og [HJh Hend]].
         destruct (callee_entry h None s (map (eval_atom s) args) (f_nparams fd) HG HD Hvs) as [Hentry [HGentry HDentry]].
         { now rewrite map_length. }
-        { intros i Hi. rewrite nth_error_map in Hi. destruct (nth_error args i) as [a|] eqn:Ea; [|discriminate].
+        { intros i st0 Hi. rewrite nth_error_map in Hi. destruct (nth_error args i) as [a|] eqn:Ea; [|discriminate].
           cbn in Hi. inversion Hi as [Hv]. cbn.
           pose proof (arg_site g c s e (call_param_site ctr h cs) args i a Hr Hargs Hoks Hus) as A.
           unfold call_param_site in A. rewrite Ech in A. apply A; auto. }
@@ -852,16 +1081,17 @@ Section Sound.
           destruct (inv_assign g c _ (mark_stale ng e) y VNil [PSite (SResult h)] A1 A2) as [R1 R2]; auto.
           { intros _. exists (PSite (SResult h)). split; [left; reflexivity|]. rewrite E. cbn.
             change (SResult h) with (rsub h None (SResult h)).
-            eapply (tsite h None 0 PNil (SResult h)); [apply Hend; congruence | exact I | discriminate |].
+            eapply (tsite h None 0 PNil (SResult h)); [apply Hend; congruence | exact I |].
             intros cs0 E0. discriminate. }
           split; [eauto|]. split; auto. apply DInv_sset; auto. apply Vok_nil.
-        * destruct R as [Hv [HG' [HD' Hvv]]]. destruct (after_call g c s s' e Hr HG' HD HD') as [A1 [A2 A3]].
+        * destruct (sget s' VERR) eqn:Everr; auto.
+          destruct R as [Hv [HG' [HD' Hvv]]]. destruct (after_call g c s s' e Hr HG' HD HD') as [A1 [A2 A3]].
           destruct x as [y|]; [|split; eauto].
           destruct (inv_assign g c _ (mark_stale ng e) y v [PSite (SResult h)] A1 A2) as [R1 R2]; auto.
-          { intros Hnil. exists (PSite (SResult h)). split; [left; reflexivity|]. rewrite E. cbn. apply (Hv Hnil). }
+          { intros Hnil. exists (PSite (SResult h)). split; [left; reflexivity|]. rewrite E. cbn. apply (Hv Hnil eq_refl). }
           split; [eauto|]. split; auto. apply DInv_sset; auto.
     - apply J_deref_inv in HJ. destruct HJ as [Hd [Hu ->]]. destruct (sget s x) eqn:E.
-      + destruct (Hr x Hok E) as [p [Hp Hn]]. eapply tderef; eauto. eapply use_ok_in; eauto.
+      + destruct (Hr x Hok E) as [p [Hp Hn]]. eapply (use_deref g c s (aget e x) d p); eauto. eapply use_ok_in; eauto.
       + eauto.
     - apply andb_true_iff in Hok. destruct Hok as [Hok Hc2]. apply andb_true_iff in Hok. destruct Hok as [Hcok Hc1].
       apply calls_ok_if in Hcalls. destruct Hcalls as [Hk1 Hk2].
@@ -889,13 +1119,16 @@ Section Sound.
         * cbn. now rewrite Hcok, Hbok.
         * eapply respects_le; eauto.
       + split; eauto.
-    - apply J_return_inv in HJ. destruct HJ as [Hret [Hu ->]]. split; [|split; [auto|split; [auto|now apply Vok_atom]]]. intros Hv.
+    - (* return a *)
+      apply J_return_inv in HJ. destruct HJ as [Hret [Hu ->]].
+      split; [|split; [now apply GInv_local|split; [apply DInv_sset; auto; apply Vok_nil|now apply Vok_atom]]]. intros Hv _.
       destruct (eval_atom_respects g c s e a Hok Hr Hv) as [p [Hp Hn]].
       assert (Hs : p <> PStale) by (eapply use_ok_in; eauto).
       destruct c as [cs|]; cbn.
       + intros Hcp. replace (SCallResult g cs) with (rsub g (Some cs) (SResult g)) by (cbn; now rewrite Nat.eqb_refl).
-        eapply tsite; eauto. intros cs0 E0 _. inversion E0; subst. exact Hcp.
-      + change (SResult g) with (rsub g None (SResult g)). eapply tsite; eauto. intros cs0 E0. discriminate.
+        eapply (use_site g (Some cs) s (prods_of_atom e a) 0 (SResult g) p); eauto. intros cs0 E0 _. inversion E0; subst. exact Hcp.
+      + change (SResult g) with (rsub g None (SResult g)).
+        eapply (use_site g None s (prods_of_atom e a) 0 (SResult g) p); eauto. intros cs0 E0. discriminate.
     - (* conversion to an interface: a non-nil value whose (interface, implementation) pair is witnessed *)
       apply J_conv_inv in HJ. subst.
       destruct (inv_assign_nonnil g c s e x (VPtr (Some (ik, j))) [PNever] Hr HG) as [R1 R2]; [discriminate|].
@@ -906,7 +1139,7 @@ Section Sound.
       apply andb_true_iff in Hok. destruct Hok as [Hok Hrows]. apply andb_true_iff in Hok. destruct Hok as [Hok Hx].
       apply andb_true_iff in Hok. destruct Hok as [Hxi Hoks].
       destruct (sget s xi) as [|[[k' j]|]] eqn:Exi; auto.
-      + destruct (Hr xi Hxi Exi) as [p [Hp Hn]]. eapply tderef; eauto. eapply use_ok_in; eauto.
+      + destruct (Hr xi Hxi Exi) as [p [Hp Hn]]. eapply (use_deref g c s (aget e xi) d p); eauto. eapply use_ok_in; eauto.
       + destruct (Nat.eqb ik k') eqn:Ek; auto. apply Nat.eqb_eq in Ek. subst k'.
         destruct (nth_error (nth j (p_impls prog) []) m) as [f|] eqn:Em; auto.
         destruct (nth_error (p_funcs prog) f) as [fd|] eqn:Ef; auto.
@@ -923,7 +1156,7 @@ Section Sound.
         { intros v [<-|Hv]; [apply Vok_plain|]. apply in_map_iff in Hv. destruct Hv as [a [<- _]]. now apply Vok_atom. }
         destruct (callee_entry f None s (VPtr None :: map (eval_atom s) args) (f_nparams fd) HG HD Hvs) as [Hentry [HGentry HDentry]].
         { cbn. now rewrite map_length. }
-        { intros i Hi. destruct i as [|i]; cbn in Hi; [discriminate|].
+        { intros i st0 Hi. destruct i as [|i]; cbn in Hi; [discriminate|].
           rewrite nth_error_map in Hi. destruct (nth_error args i) as [a|] eqn:Ea; [|discriminate].
           cbn in Hi. inversion Hi as [Hv]. cbn.
           assert (Hlt : i < length args) by (apply nth_error_Some; congruence).
@@ -938,15 +1171,63 @@ Section Sound.
           { intros _. exists (PSite (SIResult ik m)). split; [left; reflexivity|]. rewrite E. cbn.
             eapply (W_result ik j m f fd); eauto.
             change (SResult f) with (rsub f None (SResult f)).
-            eapply (tsite f None 0 PNil (SResult f)); [apply Hend; congruence | exact I | discriminate |].
+            eapply (tsite f None 0 PNil (SResult f)); [apply Hend; congruence | exact I |].
             intros cs0 E0. discriminate. }
           split; [eauto|]. split; auto. apply DInv_sset; auto. apply Vok_nil.
-        * destruct R as [Hv [HG' [HD' Hvv]]]. destruct (after_call g c s s' e Hr HG' HD HD') as [A1 [A2 A3]].
+        * destruct (sget s' VERR) eqn:Everr; auto.
+          destruct R as [Hv [HG' [HD' Hvv]]]. destruct (after_call g c s s' e Hr HG' HD HD') as [A1 [A2 A3]].
           destruct x as [y|]; [|split; eauto].
           destruct (inv_assign g c _ (mark_stale ng e) y v [PSite (SIResult ik m)] A1 A2) as [R1 R2]; auto.
           { intros Hnil. exists (PSite (SIResult ik m)). split; [left; reflexivity|]. rewrite E. cbn.
-            eapply (W_result ik j m f fd); eauto. apply (Hv Hnil). }
+            eapply (W_result ik j m f fd); eauto. apply (Hv Hnil eq_refl). }
           split; [eauto|]. split; auto. apply DInv_sset; auto.
+    - (* return a, er *)
+      apply andb_true_iff in Hok. destruct Hok as [Hoka Hoke].
+      apply J_return2_inv in HJ. destruct HJ as [Hu [Hcls ->]].
+      split; [|split; [now apply GInv_local|split; [apply DInv_sset; auto; now apply Vok_atom|now apply Vok_atom]]].
+      intros Hv Hev. unfold VERR in Hev. rewrite sget_sset in Hev. cbn in Hev.
+      destruct Hcls as [Hnn|[Hnil Hret]].
+      + (* the error is non-nil here: contradiction with its being nil *)
+        destruct (eval_atom_respects g c s e er Hoke Hr Hev) as [q [Hq Hnq]]. rewrite (Hnn q Hq) in Hnq.
+        rewrite psub_other in Hnq by (intros s0; discriminate). contradiction.
+      + destruct (eval_atom_respects g c s e a Hoka Hr Hv) as [p [Hp Hn]].
+        assert (Hs : p <> PStale) by (eapply use_ok_in; eauto).
+        destruct c as [cs|]; cbn.
+        * intros Hcp. replace (SCallResult g cs) with (rsub g (Some cs) (SResult g)) by (cbn; now rewrite Nat.eqb_refl).
+          eapply (use_site g (Some cs) s (prods_of_atom e a) 0 (SResult g) p); eauto. intros cs0 E0 _. inversion E0; subst. exact Hcp.
+        * change (SResult g) with (rsub g None (SResult g)).
+          eapply (use_site g None s (prods_of_atom e a) 0 (SResult g) p); eauto. intros cs0 E0. discriminate.
+    - (* x, xe = h(args) *)
+      apply J_call2_inv in HJ. destruct HJ as [Hargs [Hus ->]].
+      destruct (nth_error (p_funcs prog) h) as [fd|] eqn:Eh; [|discriminate].
+      apply andb_true_iff in Hok. destruct Hok as [Hok Hxe]. apply andb_true_iff in Hok. destruct Hok as [Hok Hx].
+      apply andb_true_iff in Hok. destruct Hok as [Hlen Hoks]. apply Nat.eqb_eq in Hlen.
+      assert (Hvs : forall v, In v (map (eval_atom s) args) -> Vok v).
+      { intros v Hv. apply in_map_iff in Hv. destruct Hv as [a [<- _]]. now apply Vok_atom. }
+      destruct (FuncsOK h fd None Eh I) as [og [HJh Hend]].
+      destruct (callee_entry h None s (map (eval_atom s) args) (f_nparams fd) HG HD Hvs) as [Hentry [HGentry HDentry]].
+      { now rewrite map_length. }
+      { intros i st0 Hi. rewrite nth_error_map in Hi. destruct (nth_error args i) as [a|] eqn:Ea; [|discriminate].
+        cbn in Hi. inversion Hi as [Hv]. cbn.
+        eapply (arg_site g c s e (fun i => SParam h i) args i a); eauto. }
+      pose proof (IH h None (f_body fd) _ oracle _ og HJh (WF h fd Eh) (CallsOK h fd Eh) Hentry HGentry HDentry) as R.
+      assert (Hx' : match x with Some (VG _) => False | _ => True end).
+      { destruct x as [[i|k]|]; auto. discriminate. }
+      assert (Hxe' : match xe with Some (VL _ as y) => match x with Some y' => var_eqb y y' = false | None => True end | Some (VG _) => False | None => True end).
+      { destruct xe as [[i|k]|]; auto; [|discriminate]. destruct x as [y'|]; auto. now apply negb_true_iff in Hxe. }
+      destruct (exec prog fuel (f_body fd) (bind_params 0 (map (eval_atom s) args) ++ globals_of s) oracle) as [s' o'|v s' o'|d|]; auto.
+      + (* fell off the end: (nil, nil) *)
+        destruct R as [[e' [Heq _]] [HG' HD']]. destruct (after_call g c s s' e Hr HG' HD HD') as [A1 [A2 A3]].
+        destruct (call2_respects g c _ e cs x xe h VNil VNil A1 A2) as [R1 R2]; auto.
+        { intros _ _. change (SResult h) with (rsub h None (SResult h)).
+          eapply (tsite h None 0 PNil (SResult h)); [apply Hend; congruence | exact I |]. intros cs0 E0. discriminate. }
+        split; [eauto|]. split; auto.
+        destruct xe as [ye|]; destruct x as [y|]; repeat apply DInv_sset; auto; apply Vok_nil.
+      + destruct R as [Hv [HG' [HD' Hvv]]]. destruct (after_call g c s s' e Hr HG' HD HD') as [A1 [A2 A3]].
+        destruct (call2_respects g c _ e cs x xe h v (sget s' VERR) A1 A2) as [R1 R2]; auto.
+        { intros Hev Hnil. exact (Hv Hnil Hev). }
+        split; [eauto|]. split; auto.
+        destruct xe as [ye|]; destruct x as [y|]; repeat apply DInv_sset; auto; apply HD'.
   Qed.
 End Sound.
 
@@ -993,6 +1274,14 @@ Proof.
   - replace (f0 + S i) with (S f0 + i) in Hc by lia. eapply IH; eauto.
 Qed.
 
+Lemma drop_safe_id rs sp : forall tss f, none_exempt rs sp f tss = true -> drop_safe rs sp f tss = tss.
+Proof.
+  induction tss as [|ts tss IH]; intros f H; cbn in *; auto.
+  apply andb_true_iff in H. destruct H as [H1 H2]. rewrite (IH _ H2). f_equal.
+  clear -H1. induction ts as [|t ts IHt]; cbn in *; auto.
+  apply andb_true_iff in H1. destruct H1 as [Ht Hts]. rewrite Ht. now rewrite (IHt Hts).
+Qed.
+
 Lemma in_concat_nth {A} (ls : list (list A)) i l x : nth_error ls i = Some l -> In x l -> In x (concat ls).
 Proof. intros Hn Hx. apply in_concat. exists l. split; auto. eapply nth_error_In; eauto. Qed.
 
@@ -1001,20 +1290,21 @@ Proof. intros Hn Hx. apply in_concat. exists l. split; auto. eapply nth_error_In
    contracts are true, and the emitted constraints contain no flow from a nil source to a dereference, then no
    execution of the program dereferences nil -- whatever the opaque conditions answer and however long it runs. *)
 Theorem flow_sound prog afuel ctr pk r :
-  analyze_program afuel ctr pk prog = Some r -> r_gsafe r = true -> r_clocal r = true ->
+  analyze_program afuel ctr pk prog = Some r -> r_gsafe r = true -> r_clocal r = true -> r_nodel r = true ->
   wf_program prog = true -> ctr_arity ctr 0 (p_funcs prog) = true -> impls_plain prog ctr = true ->
   (forall g fd, ctr g = true -> nth_error (p_funcs prog) g = Some fd -> contract_true prog fd) ->
   ~ has_flow (csys_of [] [] (all_triggers r)) ->
   forall fuel oracle, panic_of (run_program prog fuel oracle) = None.
 Proof.
-  intros Han Hgs Hcl Hwf Har Himp Hct Hnf fuel oracle. unfold analyze_program in Han.
+  intros Han Hgs Hcl Hnd Hwf Har Himp Hct Hnf fuel oracle. unfold analyze_program in Han.
   set (sp2 := fun f g : fname => Nat.eqb (pk f) (pk g)) in *.
   destruct (analyze_funcs (length (p_ginit prog)) afuel ctr sp2 0 (p_funcs prog)) as [[tss b0]|] eqn:Ef; [|discriminate].
-  inversion Han; subst r. clear Han. cbn in Hgs, Hcl. subst b0.
+  inversion Han; subst r. clear Han. cbn in Hgs, Hcl, Hnd. subst b0.
+  rewrite (drop_safe_id _ _ _ _ Hnd) in Hnf.
   apply andb_true_iff in Hwf. destruct Hwf as [Hwf Hentry].
   set (r := {| r_decl := decl_triggers 0 (p_ginit prog); r_funcs := tss; r_dups := dups_all ctr sp2 tss 0 (p_funcs prog);
                r_affil := map (fun fd => flat_map (affil prog) (convs_of (f_body fd))) (p_funcs prog);
-               r_gsafe := true; r_clocal := ctr_local ctr sp2 0 (p_funcs prog) |}) in *.
+               r_gsafe := true; r_nodel := true; r_clocal := ctr_local ctr sp2 0 (p_funcs prog) |}) in *.
   set (ALLs := all_strigs r) in *.
   assert (InF : forall g tg t, nth_error tss g = Some tg -> In t tg -> In t ALLs).
   { intros g tg t Hg Ht. unfold ALLs, all_strigs. cbn. apply in_or_app. right. apply in_or_app. left. eapply in_concat_nth; eauto. }
@@ -1060,7 +1350,7 @@ Proof.
   assert (HG : GInv prog ALLs (init_globals 0 (p_ginit prog))).
   { intros k Hk Hx. rewrite init_globals_get in Hx. cbn in Hx. rewrite Nat.sub_0_r in Hx.
     destruct (nth_error (p_ginit prog) k) as [[|]|] eqn:En; try discriminate.
-    - eapply (tsite_plain ALLs 0 None 0 PNil (SGlobal k)); [|exact I|discriminate|reflexivity].
+    - eapply (tsite_plain ALLs 0 None 0 PNil (SGlobal k)); [|exact I|reflexivity].
       unfold Has, inst, ALLs, all_strigs. cbn. apply in_or_app. left. apply (decl_triggers_in (p_ginit prog) 0 k En).
     - apply nth_error_None in En. lia. }
   assert (HD : DInv prog ALLs (init_globals 0 (p_ginit prog))).
